@@ -76,6 +76,14 @@ def run_case(case):
 
     def app(environ, start_response):
         it = base(environ, start_response)
+        if disc == "call":
+            # the client goes away while the application is still running
+            ch = conn_holder["conn"].ch
+            if ch is not None:
+                env.S.acting_as = "io"
+                ch.handle_close()
+                env.S.acting_as = "worker"
+            return it
         if disc is None or not hasattr(it, "chunks"):
             return it
         # inject the I/O thread's teardown before iteration step k
@@ -136,6 +144,10 @@ def judge(case, res):
             v.append(("wedged-after-disconnect", "requests still queued on a dead connection"))
         if rec is not None and rec.started and rec.close_calls != 1 and not getattr(rec, "is_file", False):
             v.append(("close-count-after-disconnect", f"iterable close() called {rec.close_calls} times after a client disconnect before step {case['disconnect']}"))
+        if rec is not None and getattr(rec, "is_file", False):
+            cc = res["rec_after_teardown"]
+            if cc is None or cc[1] != 1:
+                v.append(("file-close-count-after-disconnect", f"file handed over through wsgi.file_wrapper closed {cc[1] if cc else None} times after a client disconnect during the application call"))
         return v
     if exc is None:
         return v
@@ -202,6 +214,8 @@ def cases(tier):
                         p["exc"] = pt
                         p["exc_class"] = cls
                         yield dict(prog=p, expose=expose, logsock=logsock)
+                # client disconnect while the application runs (every path, incl. file_wrapper)
+                yield dict(prog=dict(prog), expose=expose, logsock=logsock, disconnect="call")
                 # client disconnect before iteration step k (iterable paths)
                 if prog["delivery"] in ("list", "gen", "write+iter"):
                     for k in range(0, len(prog["chunks"]) + 1):
